@@ -1,5 +1,5 @@
 (* GENERATED on every run by harness/props/C08.py from mdtraj/geometry/src/sasa.cpp (and neighborlist.cpp for the
-   shared-variable list).  ops: acc scale out *)
+   shared-variable list).  ops: zero acc scale out *)
 From Coq Require Import String.
 From Coq Require Import List ZArith Bool.
 Import ListNotations.
@@ -7,10 +7,10 @@ Require Import MD.Sched.Scratch MD.Sched.Kernels.
 Open Scope Z_scope.
 
 (* cell 0 = the thread's outframebuffer entry of one atom; Inp 0 = accessible points in this frame; Inp 1 = c*r*r *)
-Definition sasa_prog : prog := [Set_ 0 (Add (Cell 0) (Inp 0)); Set_ 0 (Mul (Cell 0) (Inp 1)); Out (Cell 0)].
+Definition sasa_prog : prog := [Set_ 0 (Const 0); Set_ 0 (Add (Cell 0) (Inp 0)); Set_ 0 (Mul (Cell 0) (Inp 1)); Out (Cell 0)].
 
 (* variables declared outside an omp parallel region, written inside it, and not private *)
-Definition shared_written : list string := ["sasa.cpp:j"%string].
+Definition shared_written : list string := [].
 
 (* per-run obligation: the loop as it is written today either obeys the scratch discipline or is exactly the
    recorded as-found loop (whose violation is the known finding); anything else stops the build *)
